@@ -127,8 +127,8 @@ func (e *Enc) frameObligations(fr *Frame, ct *Contract, entry, out *State, reach
 		if mod(c) {
 			continue
 		}
-		if strings.HasPrefix(c, "$") && ct.Logged != "" && strings.HasPrefix(c, "$"+ct.Logged+".") {
-			continue
+		if strings.HasPrefix(c, "$") && e.isLogComp(c) {
+			continue // ghost call logs are bookkeeping of the proof, not program state
 		}
 		before, after := e.Get(entry, c), e.Get(out, c)
 		if before == after {
